@@ -157,12 +157,37 @@ def check(ctx):
         created = []
         if sacrificed:
             created = os.listdir(sacrifice)
-            shutil.rmtree(sacrifice, ignore_errors=True)
+            for c_ in created:
+                shutil.rmtree(os.path.join(sacrifice, c_), ignore_errors=True)
     evs = [{"ev": "fs", "nodes": listing}]
     rawevs = vlib.read_ndjson(raw)
     for e in rawevs:
         evs.append({"ev": "probe", "spelled": e["spelled"], "mode": e["mode"], "path": full[e["spelled"]],
                     "refused": e["refused"], "msg": e["msg"][:160]})
+    # relative spellings while $PWD names the working directory through a symlink that crosses a
+    # protected-directory boundary (os.Getwd returns $PWD verbatim when it is the current directory)
+    pwd_cases = []
+    if sacrificed:
+        os.makedirs(sacrifice + "/inner", exist_ok=True)
+        os.symlink(sacrifice + "/inner", os.path.join(W, "lnk_inner"))          # outside spelling -> protected dir
+        os.symlink(os.path.join(W, "real"), sacrifice + "/lnk_out")             # protected spelling -> outside dir
+        pwd_cases = [(os.path.join(W, "lnk_inner"), sacrifice + "/inner"), (sacrifice + "/lnk_out", os.path.join(W, "real"))]
+    for n, (spelled_cwd, phys) in enumerate(pwd_cases):
+        rel = ["newdb", "./db2", "x/../db3", "sub", "missing/y"]
+        pl = os.path.join(ctx.scratch, "pwd%d.json" % n)
+        rw2 = os.path.join(ctx.scratch, "pwd%d.ndjson" % n)
+        with open(pl, "w") as fh:
+            json.dump({"cwd": spelled_cwd, "pwd": spelled_cwd, "probes": [{"path": s, "mode": "ro"} for s in rel]}, fh)
+        ctx.drv(["guard-probe", "-plan", pl, "-out", rw2])
+        f2 = Facts()
+        for e in vlib.read_ndjson(rw2):
+            c = comps(phys) + comps(e["spelled"])
+            facts.visit(c)
+            evs.append({"ev": "probe", "spelled": "$PWD=%s %s" % (spelled_cwd, e["spelled"]), "mode": "ro", "path": c,
+                        "refused": e["refused"], "msg": e["msg"][:160]})
+    evs[0]["nodes"] = facts.listing()
+    if sacrificed:
+        shutil.rmtree(sacrifice, ignore_errors=True)
     trace = os.path.join(ctx.scratch, "trace.ndjson")
     vlib.write_ndjson(trace, evs)
     ctx.notes["probes"] = len(evs) - 1
